@@ -199,8 +199,10 @@ class AssociationAcceptor(socketserver.StreamRequestHandler, Association):
         acceptable_pr_contexts"""
         user_items = assoc_req.variable_items[-1]
         max_pdu_sub_item = user_items.user_data[0]
-        if self.max_pdu_length > max_pdu_sub_item.maximum_length_received:
-            self.max_pdu_length = max_pdu_sub_item.maximum_length_received
+        # a maximum length of 0 means "no maximum length" (PS3.8 Annex D.1): it never lowers a limit
+        peer_max = max_pdu_sub_item.maximum_length_received
+        if peer_max and (not self.max_pdu_length or self.max_pdu_length > peer_max):
+            self.max_pdu_length = peer_max
         max_pdu_sub_item.maximum_length_received = self.max_pdu_length
 
         # analyse proposed presentation contexts
@@ -389,7 +391,7 @@ class AssociationRequester(Association):
         user_data = response.variable_items[-1].user_data
         try:
             max_pdu_length = user_data[0].maximum_length_received
-            if max_pdu_length and self.max_pdu_length > max_pdu_length:
+            if max_pdu_length and (not self.max_pdu_length or self.max_pdu_length > max_pdu_length):
                 self.max_pdu_length = max_pdu_length
         except IndexError:
             pass
